@@ -568,6 +568,14 @@ func (o *operation) handle() {
 			return
 		}
 		skipBody = !hasBody
+		// The request line builder returns the path in its encoded form. The URL wants the
+		// decoded form in Path (and the encoded one in RawPath), or else every escape would
+		// be escaped a second time when the URL is rendered.
+		o.request.URL.RawPath = ""
+		if unescaped, err := url.PathUnescape(o.request.URL.Path); err == nil && unescaped != o.request.URL.Path {
+			o.request.URL.RawPath = o.request.URL.Path
+			o.request.URL.Path = unescaped
+		}
 		// Recompute if the server needs to prep the request, now that we've modified
 		// properties of op.request.
 		if o.serverPreparer != nil {
